@@ -29,12 +29,27 @@ class ArmFixture:
     """an arbitrary n-joint arm: unit-axis screws S0 (base frame), home tool pose M0 (base frame), joint positions,
     built at an arbitrary base pose (or at the identity)"""
 
-    def __init__(self, g, n, base_identity=False):
+    def __init__(self, g, n, base_identity=False, fixed_geometry=False):
         tm = g.module(TMM).tm
         self.n = n
-        self.S0 = unit_screws(g, 'S', n)
-        self.home, self.M0 = frame(g, 'H')
-        self.jp = g.arr([g.reals('J%d_' % k, n, scale=1.5) for k in range(3)])
+        if fixed_geometry:
+            # a fixed chain with rational data: axes z, y, x, ... at offset points; home pose a pure translation
+            axes = [[0, 0, 1], [0, 1, 0], [1, 0, 0]]
+            pts = [[0, 0, 0.5], [0.75, 0, 0.5], [1.5, 0.25, 0.5]]
+            cols = []
+            for k in range(n):
+                w, q = axes[k % 3], pts[k % 3]
+                v = [q[1] * w[2] - q[2] * w[1], q[2] * w[0] - q[0] * w[2], q[0] * w[1] - q[1] * w[0]]
+                cols.append(w + v)
+            mk = (lambda x: npx.array(x, dtype=float)) if g.symbolic else (lambda x: _np.array(x, dtype=float))
+            self.S0 = mk([[cols[j][k] for j in range(n)] for k in range(6)])
+            self.M0 = mk([[1, 0, 0, 2.0], [0, 1, 0, 0.25], [0, 0, 1, 0.5], [0, 0, 0, 1]])
+            self.home = tm(self.M0.copy())
+            self.jp = mk([[pts[k % 3][r] for k in range(n)] for r in range(3)])
+        else:
+            self.S0 = unit_screws(g, 'S', n)
+            self.home, self.M0 = frame(g, 'H')
+            self.jp = g.arr([g.reals('J%d_' % k, n, scale=1.5) for k in range(3)])
         if base_identity:
             self.base, self.Mb = tm(), S.eye(4, self.M0)
         else:
@@ -56,6 +71,8 @@ def check_coherent_arm(g, fx, Mb, label, tool=None):
     g.eq(label + ': home tool pose = base M0' + z, a._end_effector_home.gTM(), H)
     g.eq(label + ': recorded base pose', a.getBasePos().gTM(), Mb)
     g.eq(label + ': backup of the screws = the screws as given', a.original_screw_list, fx.S0)
+    if tool is None:
+        g.eq(label + ': backup of the home tool pose = base M0' + z, a._original_end_effector_home.gTM(), H)
 
 
 class ArmC(Contract):
@@ -89,6 +106,9 @@ class _ArmInit(ArmC):
 
     def post(self, g, fx, args, kwargs):
         check_coherent_arm(g, fx, fx.Mb, 'after construction')
+        own = fx.arm._base_pos_global
+        g.holds('the arm keeps its own copy of the base pose (no aliasing of the argument object)',
+                own is not fx.base and not _np.shares_memory(own.TM, fx.base.TM) and not _np.shares_memory(own.TAA, fx.base.TAA))
         g.eq('the screw array handed to the constructor is left unaltered', fx.given_S, fx.S0)
         g.eq('the joint-position array handed to the constructor is left unaltered', fx.given_jp, fx.jp)
         g.eq('tool pose after construction = home pose' + zone(g), fx.arm.getEEPos().gTM(), S.mm(fx.Mb, fx.M0))
@@ -126,21 +146,23 @@ class _ArmFKclamp(ArmC):
     target = ARM + ':Arm.thetaProtector'
 
     def run(self, g, fn, args, kwargs):
-        fx = ArmFixture(g, self.n, base_identity=True)
+        fx = ArmFixture(g, self.n, base_identity=True, fixed_geometry=True)
+        lo = g.arr(g.reals('lo', self.n, lo=-4.0, hi=-0.1))
+        hi = g.arr(g.reals('hi', self.n, lo=0.1, hi=4.0))
+        fx.arm.setJointProperties(joint_mins=lo.copy(), joint_maxs=hi.copy())
         th = g.arr(g.reals('t', self.n, lo=-6.0, hi=6.0))
         given = th.copy()
         out = fx.arm.thetaProtector(th)
-        return fx, given, out
+        return fx, given, out, lo, hi
 
     def post(self, g, res, args, kwargs):
-        fx, given, out = res
-        pi = S.pi_of(given)
+        fx, given, out, lo, hi = res
         for j in range(self.n):
             x = given[j]
-            if x < -pi:
-                g.eq('joint %d below its limit is clamped to the limit' % j, out[j], -pi)
-            elif x > pi:
-                g.eq('joint %d above its limit is clamped to the limit' % j, out[j], pi)
+            if x < lo[j]:
+                g.eq('joint %d below its limit is clamped to the limit' % j, out[j], lo[j])
+            elif x > hi[j]:
+                g.eq('joint %d above its limit is clamped to the limit' % j, out[j], hi[j])
             else:
                 g.eq('joint %d inside its limits is unchanged' % j, out[j], x)
 
@@ -151,16 +173,27 @@ class _ArmMove(ArmC):
     target = ARM + ':Arm.move'
     under_contract = (ARM + ':Arm.initialize',)
 
+    fixed_geometry = False
+
     def run(self, g, fn, args, kwargs):
-        fx = ArmFixture(g, self.n)
+        fx = ArmFixture(g, self.n, base_identity=self.fixed_geometry, fixed_geometry=self.fixed_geometry)
         nb, Mn = frame(g, 'N')
         fx.arm.move(nb)
+        own = fx.arm._base_pos_global
+        self.alias_ok = own is not nb and not _np.shares_memory(own.TM, nb.TM) and not _np.shares_memory(own.TAA, nb.TAA)
         return fx, Mn
 
     def post(self, g, out, args, kwargs):
         fx, Mn = out
         check_coherent_arm(g, fx, Mn, 'after move')
+        g.holds('after move the arm keeps its own copy of the base pose', self.alias_ok)
         g.eq('tool pose after move (joint state zero) = new base M0' + zone(g), fx.arm.getEEPos().gTM(), S.mm(Mn, fx.M0))
+        # history: move; restoreOriginalEE; FK(0) -- the restored home must be the home at the NEW base
+        fx.arm.restoreOriginalEE()
+        z = zone(g)
+        g.eq('after move and restoreOriginalEE the home tool pose = new base M0' + z, fx.arm._end_effector_home.gTM(), S.mm(Mn, fx.M0))
+        th0 = npx.zeros(fx.n) if g.symbolic else _np.zeros(fx.n)
+        g.eq('after move, restoreOriginalEE, FK(0): tool pose = new base M0' + z, fx.arm.FK(th0).gTM(), S.mm(Mn, fx.M0), tol=5e-6)
 
 
 class _ArmTool(ArmC):
@@ -371,8 +404,9 @@ def _mk(name, base, ns=(1, 2), tiers=None, **kw):
 _mk('Arm_init', _ArmInit, tiers={2: 'thorough'})
 _mk('Arm_FK', _ArmFK, tiers={2: 'thorough'})
 _mk('Arm_FK_any_base', _ArmFK, ns=(1,), tiers={1: 'thorough'}, base_identity=False)
-_mk('Arm_FK_clamp', _ArmFKclamp, ns=(1, 2), tiers={2: 'thorough'})
+_mk('Arm_FK_clamp', _ArmFKclamp, ns=(1, 2, 3))
 _mk('Arm_move', _ArmMove, tiers={1: 'thorough', 2: 'thorough'})
+_mk('Arm_move_fixed_geometry', _ArmMove, ns=(2,), fixed_geometry=True)
 _mk('Arm_tool_change', _ArmTool, ns=(1,), tiers={1: 'thorough'})
 _mk('Arm_jacobians', _ArmJac, tiers={2: 'thorough'})
 _mk('Arm_jacobian_is_derivative', _ArmJacDeriv, tiers={2: 'thorough'})
